@@ -233,9 +233,17 @@ func RunScopes(property string, all []*Scope, tier, only string, nworkers int, d
 			wg.Add(1)
 			go func(sh int) {
 				defer wg.Done()
-				cmd := exec.Command(os.Args[0], workerFlag, fmt.Sprintf("%s\x1f%d\x1f%d\x1f%d", sc.Name, sh, n, dl.UnixMilli()))
-				cmd.Stderr = os.Stderr
-				out, err := cmd.Output()
+				run := func() ([]byte, error) {
+					cmd := exec.Command(os.Args[0], workerFlag, fmt.Sprintf("%s\x1f%d\x1f%d\x1f%d", sc.Name, sh, n, dl.UnixMilli()))
+					cmd.Stderr = os.Stderr
+					return cmd.Output()
+				}
+				out, err := run()
+				if ee, ok := err.(*exec.ExitError); ok && ee.ExitCode() < 0 {
+					// killed by a signal from outside: one retry (a crash of its own has an exit code)
+					fmt.Fprintf(os.Stderr, "NOTE %s scope %s: worker %d: %v, retrying\n", property, sc.Name, sh, err)
+					out, err = run()
+				}
 				if err != nil {
 					errs[sh] = fmt.Errorf("worker %d: %v", sh, err)
 					return
